@@ -546,6 +546,34 @@ Example c16_nonvacuous_stream_failed_body :
   snd r = S.FErr 8 /\ cache (fst r) 7 = None /\ tmp (fst r) = [].
 Proof. vm_compute. repeat split; reflexivity. Qed.
 
+(* The whole network part of a lookup — `for url in &self.urls { match fetch_symbol_file(..).await { Ok => return, Err => next } }` —
+   with the streaming download inside, for every list of servers and EVERY response of each (no head; any status; any body script):
+   tmp is as before, no other cache path is touched; a lookup that fails leaves the whole cache untouched and has asked every
+   server once, in order; a lookup that succeeds has asked the servers up to the successful one, whose status was < 400, whose
+   body did not fail and was handed to the callback to the last byte, and the cache path holds that WHOLE body + note with that
+   server's URL (or is unchanged / an older entry removed and persist failed). *)
+Theorem c16_stream_lookup_entry_only_from_whole_body :
+  forall (L : Type) (llen : L -> Z) (PS : Type) (init_ps : PS) (recog : PS -> L -> PS + Z) (bump : PS -> PS)
+         (lineno : PS -> Z) (T : Type) (finish : PS -> option T) (split : bytes -> list L * Z) (p : path),
+  (forall l, 1 <= llen l) ->
+  forall ss f, Forall (SP.resp_ok L llen split) ss ->
+  let R := S.lookup_stream L llen PS init_ps recog bump lineno T finish split p f ss in
+  let f' := fst (fst R) in
+  tmp f' = tmp f /\ (forall q, q <> p -> cache f' q = cache f q) /\
+  match snd (fst R) with
+  | None => cache_eq f' f /\ snd R = SP.ids ss
+  | Some (t, u) =>
+      exists pre s code b script post,
+        ss = pre ++ (s, S.RHead code b script) :: post /\ u = s_url s /\ code < 400 /\ C10.Stream.fails script = false /\
+        (exists ps x, C10.Stream.drive_stream L llen PS init_ps recog bump lineno (fst (split b)) (snd (split b)) script
+                      = Ret (C09.Model.ROk ps, x) /\
+                      finish ps = Some t /\ C09.Model.cbsum (C10.Stream.core x) = Z.of_nat (length b)) /\
+        commit_post p f f' b u /\
+        snd R = SP.ids (pre ++ [(s, S.RHead code b script)])
+  end.
+Proof. exact SP.lookup_stream_cases. Qed.
+Print Assumptions c16_stream_lookup_entry_only_from_whole_body.
+
 (* The class of seeded/C16-7 stated on the model (C16/StaleFlag.v: the loop with a fast path `if consumed == 0 { continue; }`
    in front of the bookkeeping after parse_more, so that fully_consumed keeps the previous iteration's value).
    `MODULE a b c d\n` + `FILE 1 x` without a final newline, delivered as [the first line] [the rest]: that loop returns Ok
